@@ -294,8 +294,21 @@ impl Consumer {
         // before the erroneous one (their messages would be skipped)
         for resp in &resps {
             for t in resp.topics() {
+                // ~ the same goes for data we did not ask for
+                let topic_ref = self
+                    .state
+                    .assignments
+                    .topic_ref(t.topic())
+                    .ok_or(Error::Kafka(KafkaCode::UnknownTopicOrPartition))?;
                 for p in t.partitions() {
                     p.data()?;
+                    let tp = state::TopicPartition {
+                        topic_ref,
+                        partition: p.partition(),
+                    };
+                    if !self.state.fetch_offsets.contains_key(&tp) {
+                        return Err(Error::Kafka(KafkaCode::UnknownTopicOrPartition));
+                    }
                 }
             }
         }
